@@ -54,7 +54,7 @@ DATA_BASES = ['s.lit', 'l.lit', 'l.empty', 'p.lit']
 DATA_LINK1 = ['s.ref', 's.pre', 'l.ref', 'l.litref', 'l.instr', 'l.quoted', 'l.quoted', 'p.comp', 'p.rel', 'p.pre']
 # quick: chains of two links - the data types and every shape with a "made up of just strings" slot
 QUICK_CHAIN = DATA_LINK1 + ['i.int', 'c.name', 'o.name', 'x.ref', 'x.str']
-CTXS = ['data', 'comp', 'compn', 'relsym', 'pre', 'int', 'range', 'env', 'pname', 'fname', 'tm', 'tt', 'pgm', 'lm', 'im',
+CTXS = ['data', 'comp', 'compn', 'compp', 'relsym', 'pre', 'int', 'range', 'env', 'pname', 'fname', 'tm', 'tt', 'pgm', 'lm', 'im',
         'fc', 'fm', 'fsm', 'fs', 'ts']
 
 CONSTANTS = {
@@ -135,6 +135,7 @@ USE = {
     'data': ['run % {PROBE} "<@[{X}]@>" @[{X}]@ {K}'],
     'comp': ['dir -rel-tmp @[{X}]@/{K}'],
     'compn': ['dir q/@[{X}]@/{K}'],
+    'compp': ['dir @[EXACTLY_ACT]@/@[{X}]@/{K}'],
     'relsym': ['dir -rel {X} {K}'],
     'pre': ['dir @[{X}]@/{K}'],
     'int': [LINES_FROM + 'filter line-num == "len(\'@[{X}]@\')"'],
